@@ -118,7 +118,7 @@ def section(ctx, violate=False):
   import copy
   t0 = next((t for t, fl in verdicts if not fl and any(e['accepted'] == 0 for e in t['ev'])), None)
   if t0 is None:
-    if ctx.drift:
+    if ctx.drift or ctx.violations:
       return            # every run at the limit deviates already
     raise Machinery('Listen: no run reached the connection limit')
   t0 = copy.deepcopy(t0)
